@@ -169,6 +169,42 @@ def write_role(fx, val, loopvars):
 OPS = {"Shl", "Shr", "BitOr", "BitAnd", "Add", "Sub", "Mul", "Div", "Rem", "Eq", "Ne", "Gt", "Lt", "Ge", "Le", "And", "Or", "BitXor"}
 
 
+_count_params_memo = {}
+
+
+def count_only_params(fx, fid):
+    """indices of parameters of local function `fid` that are used only as repetition counts inside it (argument of
+    with_capacity / reserve, end of a `0..n` range): passing a value there does not make it part of what is returned"""
+    if fid in _count_params_memo:
+        return _count_params_memo[fid]
+    _count_params_memo[fid] = set()
+    fn = fx.fns.get(fid)
+    if fn is None or not fn.get("hir"):
+        return set()
+    root = hirq.body_root(fn)
+    params = [(i, p.get("lid"), p.get("name")) for i, p in enumerate(fn["hir"]["params"]) if p.get("k") == "bind"]
+    counted = set()
+    used_elsewhere = set()
+    ctx = set()
+    for n, _ in hirq.walk(root):
+        if n.get("k") in ("call", "mcall") and (n.get("m") in ("with_capacity", "reserve", "reserve_exact") or (n.get("fn") or "").endswith(("::with_capacity", "::from_elem", "::reserve"))):
+            for a in n.get("args", []):
+                for m, _ in hirq.walk(a):
+                    ctx.add(id(m))
+        if n.get("k") == "for" and n["iter"].get("k") == "struct" and (n["iter"].get("def") or "").endswith("ops::range::Range"):
+            for f in n["iter"]["fields"]:
+                for m, _ in hirq.walk(f["e"]):
+                    ctx.add(id(m))
+    for n, _ in hirq.walk(root):
+        if n.get("k") == "path" and n.get("res") == "local":
+            for i, lid, nm in params:
+                if n.get("lid") == lid or (lid is None and n.get("name") == nm):
+                    (counted if id(n) in ctx else used_elsewhere).add(i)
+    out = counted - used_elsewhere
+    _count_params_memo[fid] = out
+    return out
+
+
 class ReadRoles:
     """which struct field(s) each read effect (atom / byte run / child / helper result) flows into, through
     let-bindings (keyed by binding identity, so shadowed names stay apart), tuple destructuring, assignments to
@@ -204,6 +240,15 @@ class ReadRoles:
                 for a in n.get("args", []):
                     for m, _ in hirq.walk(a):
                         skip.add(id(m))
+            if n.get("k") in ("call", "mcall"):
+                fid = n.get("resolved") or n.get("fn")
+                if fid in self.fx.fns:
+                    cps = count_only_params(self.fx, fid)
+                    args = ([n["recv"]] if n.get("k") == "mcall" else []) + list(n.get("args", []))
+                    for i in cps:
+                        if i < len(args):
+                            for m, _ in hirq.walk(args[i]):
+                                skip.add(id(m))
             if id(n) in skip:
                 continue
             if id(n) in self.node_atom:
@@ -321,6 +366,15 @@ class ReadRoles:
                         for m, _ in hirq.walk(f["e"]):
                             if m.get("k") == "path" and m.get("res") == "local":
                                 out.add(m["lid"])
+            if n.get("k") in ("call", "mcall"):
+                fid = n.get("resolved") or n.get("fn")
+                if fid in self.fx.fns:
+                    args = ([n["recv"]] if n.get("k") == "mcall" else []) + list(n.get("args", []))
+                    for i in count_only_params(self.fx, fid):
+                        if i < len(args):
+                            for m, _ in hirq.walk(args[i]):
+                                if m.get("k") == "path" and m.get("res") == "local":
+                                    out.add(m["lid"])
         return out
 
     def role_of(self, eid):
@@ -888,9 +942,27 @@ class SizeEval:
             fid = e.get("resolved") or e.get("fn")
             if m in ("box_size", "get_size", "size", "desc_size") and not e["args"]:
                 return self.size_call(fid, e["recv"], env, sr, depth)
-            if m == "unwrap_or" and len(e["args"]) == 1:
-                # opt.as_ref().map(|x| x.box_size()).unwrap_or(0)
+            if m == "fold" and len(e["args"]) == 2 and e["args"][1].get("k") == "closure":
+                # coll.iter().fold(INIT, |acc, x| acc + f(x))  ==  INIT + sum over coll of f(elem)
+                clo = e["args"][1]
+                pn = [nm for p in clo["params"] for nm, _ in hirq.pat_bindings(p)]
+                if len(pn) == 2:
+                    coll = rep_count_role(self.fx, e["recv"])
+                    coll = coll[4:-1] if coll.startswith("len(") else coll
+                    env2 = dict(env)
+                    env2[pn[0]] = {"__acc": 1}
+                    res = self.ev(clo["body"], env2, "elem", depth)
+                    if res.get("__acc") == 1:
+                        step = {t: c for t, c in res.items() if t != "__acc"}
+                        init = self.ev(e["args"][0], env, sr, depth)
+                        if set(step) <= {None}:
+                            return lin_add(init, {"len(%s)" % coll: step.get(None, 0)})
+                        return lin_add(init, {("sum", coll, tuple(sorted(step.items(), key=repr))): 1})
+            if (m == "unwrap_or" and len(e["args"]) == 1) or (m == "map_or" and len(e["args"]) == 2):
+                # opt.as_ref().map(|x| x.box_size()).unwrap_or(0)   /   opt.as_ref().map_or(0, |x| x.box_size())
                 inner = e["recv"]
+                if m == "map_or":
+                    inner = {"k": "mcall", "m": "map", "recv": e["recv"], "args": [e["args"][1]]}
                 if inner.get("k") == "mcall" and inner["m"] == "map":
                     opt = inner["recv"]
                     while opt.get("k") == "mcall" and opt["m"] in ("as_ref", "as_mut"):
